@@ -308,7 +308,7 @@ func VerifC03Fetch() {
 	case 0:
 		o.UID, o.Flags, o.RFC822Size, o.InternalDate = true, true, true, true
 		flags = c03flags(2, false)
-		size = int64(c02num(2 + nd.Choice(3)))
+		size = int64(c02num(2 + nd.Choice(nd.Param("pw"))))
 		date = c03times[nd.Choice(len(c03times))]
 	case 1:
 		o.Envelope = true
@@ -594,7 +594,7 @@ func VerifC03Status() {
 		want.UIDValidity = uint32(c02num(0))
 	}
 	if nd.Bool() {
-		sz := int64(c02num(2 + nd.Choice(3)))
+		sz := int64(c02num(2 + nd.Choice(nd.Param("pw"))))
 		want.Size = &sz
 	}
 	o := &imap.StatusOptions{NumMessages: want.NumMessages != nil, NumUnseen: want.NumUnseen != nil, NumDeleted: want.NumDeleted != nil, UIDNext: want.UIDNext != 0, UIDValidity: want.UIDValidity != 0, Size: want.Size != nil}
